@@ -133,3 +133,172 @@ Proof.
     assert (2 ^ (p - 1) <= q) by nia.
     lia.
 Qed.
+
+(* ------------------------------------------------------------------ nearest, ties to even — without real numbers *)
+(* m * 2^e in units of 2^g (g <= e), and the distance of two dyadics in those units *)
+Definition dscale (m e g : Z) : Z := m * 2 ^ (e - g).
+Definition ddist (m1 e1 m2 e2 g : Z) : Z := Z.abs (dscale m1 e1 g - dscale m2 e2 g).
+
+Lemma dscale_shift m e k g : 0 <= k -> g <= e -> dscale m (e + k) g = m * 2 ^ k * 2 ^ (e - g).
+Proof.
+  intros K G. unfold dscale. replace (e + k - g) with (k + (e - g)) by lia.
+  rewrite Z.pow_add_r by lia. ring.
+Qed.
+
+(* one-dimensional facts: x = (q T + r) U is rounded to y = q' T U with q' = q (r <= T/2) or
+   q + 1 (r >= T/2) *)
+Section OneDim.
+Variables q r T h U q' : Z.
+Hypothesis HU : 0 < U.
+Hypothesis HR : 0 <= r < T.
+Hypothesis HT : T = 2 * h.
+Hypothesis HQ : (q' = q /\ r <= h) \/ (q' = q + 1 /\ h <= r).
+
+Lemma od_facts : 0 <= r * U < T * U /\ T * U = 2 * (h * U) /\
+  ((q' * T * U = q * T * U /\ r * U <= h * U) \/ (q' * T * U = q * T * U + T * U /\ h * U <= r * U)).
+Proof.
+  split; [nia|]. split; [rewrite HT; ring|].
+  destruct HQ as [[-> L]|[-> L]]; [left|right]; split; try ring; nia.
+Qed.
+
+(* multiples N T U of the rounding unit *)
+Lemma od_near_mult N : Z.abs (q' * T * U - (q * T + r) * U) <= Z.abs (N * T * U - (q * T + r) * U).
+Proof.
+  destruct od_facts as (R & TU & C).
+  replace ((q * T + r) * U) with (q * T * U + r * U) by ring.
+  destruct (Z.le_gt_cases N q) as [L|L].
+  - assert (0 <= (q - N) * (T * U)) by nia.
+    replace (N * T * U) with (q * T * U - (q - N) * (T * U)) by ring. lia.
+  - assert (T * U <= (N - q) * (T * U)) by nia.
+    replace (N * T * U) with (q * T * U + (N - q) * (T * U)) by ring. lia.
+Qed.
+
+Lemma od_tie_mult N : Z.abs (N * T * U - (q * T + r) * U) = Z.abs (q' * T * U - (q * T + r) * U) ->
+  N * T * U <> q' * T * U -> r = h.
+Proof.
+  destruct od_facts as (R & TU & C).
+  replace ((q * T + r) * U) with (q * T * U + r * U) by ring.
+  intros D NE. assert (r * U = h * U); [|nia].
+  destruct (Z.le_gt_cases N q) as [L|L].
+  - destruct (Z.eq_dec N q) as [->|NQ].
+    + lia.
+    + assert (T * U <= (q - N) * (T * U)) by nia.
+      replace (N * T * U) with (q * T * U - (q - N) * (T * U)) in D, NE by ring. lia.
+  - destruct (Z.eq_dec N (q + 1)) as [->|NQ].
+    + replace ((q + 1) * T * U) with (q * T * U + T * U) in D, NE by ring. lia.
+    + assert (2 * (T * U) <= (N - q) * (T * U)) by nia.
+      replace (N * T * U) with (q * T * U + (N - q) * (T * U)) in D, NE by ring. lia.
+Qed.
+
+(* anything at or below q T U *)
+Lemma od_near_low W : W <= q * T * U -> Z.abs (q' * T * U - (q * T + r) * U) <= Z.abs (W - (q * T + r) * U).
+Proof.
+  destruct od_facts as (R & TU & C).
+  replace ((q * T + r) * U) with (q * T * U + r * U) by ring. lia.
+Qed.
+
+Lemma od_tie_low W : W <= q * T * U -> Z.abs (W - (q * T + r) * U) = Z.abs (q' * T * U - (q * T + r) * U) ->
+  W <> q' * T * U -> r = h.
+Proof.
+  destruct od_facts as (R & TU & C).
+  replace ((q * T + r) * U) with (q * T * U + r * U) by ring.
+  intros L D NE. assert (r * U = h * U); [lia|nia].
+Qed.
+End OneDim.
+
+(* The pair (rsig, rexp) that [fround] computes for the positive dyadic m * 2^e:
+   - it is a number of the format: at most p bits (or 2^p), exponent >= the subnormal
+     exponent, p bits exactly above it;
+   - no number n * 2^f of the format (0 <= n <= 2^p, f >= subnormal exponent) is closer to
+     m * 2^e;
+   - if a different number of the format is equally close, the significand chosen is even.
+   Distances are compared in units of 2^g for any g not above the exponents involved. *)
+Theorem rsig_nearest_even c m e : 0 < m ->
+  let m' := rsig c m e in let e' := rexp c m e in
+  (0 <= m' <= 2 ^ fprec c /\ f_elsb c <= e' /\ (f_elsb c < e' -> 2 ^ (fprec c - 1) <= m')) /\
+  (forall n f g, 0 <= n <= 2 ^ fprec c -> f_elsb c <= f -> g <= e -> g <= e' -> g <= f ->
+     ddist m' e' m e g <= ddist n f m e g) /\
+  (forall n f g, 0 <= n <= 2 ^ fprec c -> f_elsb c <= f -> g <= e -> g <= e' -> g <= f ->
+     ddist n f m e g = ddist m' e' m e g -> dscale n f g <> dscale m' e' g -> Z.even m' = true).
+Proof.
+  intros M m' e'. set (p := fprec c). assert (P : 0 < p) by apply fprec_pos.
+  pose proof (rsig_bound c m e M) as SB. fold m' p in SB.
+  assert (EL : f_elsb c <= e') by (unfold e', rexp; lia).
+  split; [split; [exact SB|]; split; [exact EL|]; apply rsig_normal; exact M|].
+  assert (E'' : Z.log2 m + e - (p - 1) <= e') by (unfold e', rexp; fold p; lia).
+  destruct (Z.le_gt_cases e' e) as [B|B].
+  { (* exact: the distance is 0 *)
+    assert (SAME : forall g, g <= e' -> dscale m' e' g = dscale m e g).
+    { intros g G. unfold m', rsig. fold e'. destruct (Z.leb_spec e' e); [|lia].
+      rewrite Z.shiftl_mul_pow2 by lia. unfold dscale. rewrite <- Z.mul_assoc, <- Z.pow_add_r by lia.
+      f_equal. f_equal. lia. }
+    split.
+    - intros n f g N F G1 G2 G3. unfold ddist. rewrite SAME by exact G2. rewrite Z.sub_diag. cbn. lia.
+    - intros n f g N F G1 G2 G3 D NE. exfalso. unfold ddist in D. rewrite (SAME g G2), Z.sub_diag in D.
+      cbn in D. rewrite <- (SAME g G2) in D. lia. }
+  (* inexact: k low bits are dropped *)
+  set (k := e' - e). assert (K : 0 < k) by (unfold k; lia).
+  assert (RS : m' = rne_div m k).
+  { unfold m', rsig. fold e'. destruct (Z.leb_spec e' e); [lia|]. apply rshift_rne_spec; lia. }
+  destruct (rne_div_cases m k ltac:(lia) K) as (q & r & q' & A & R & Q0 & RD & QQ & UP & DN & EV).
+  rewrite RD in RS.
+  assert (PK : 0 < 2 ^ k) by (apply pow2_pos; lia).
+  pose proof (pow2_split k K) as E3.
+  assert (PH : 0 < 2 ^ (k - 1)) by (apply pow2_pos; lia).
+  (* everything in units U = 2^(e-g) *)
+  assert (SC : forall g, g <= e -> 0 < 2 ^ (e - g) /\ dscale m e g = m * 2 ^ (e - g) /\
+             dscale m' e' g = m' * 2 ^ k * 2 ^ (e - g)).
+  { intros g G. split; [apply pow2_pos; lia|]. split; [reflexivity|].
+    replace e' with (e + k) by (unfold k; lia). apply dscale_shift; lia. }
+  (* a competitor with exponent >= e' is a multiple N of 2^e' *)
+  assert (HI : forall n f g, 0 <= n -> e' <= f -> g <= e -> exists N, 0 <= N /\ dscale n f g = N * 2 ^ k * 2 ^ (e - g)).
+  { intros n f g N F G. exists (n * 2 ^ (f - e')).
+    assert (0 < 2 ^ (f - e')) by (apply pow2_pos; lia). split; [nia|].
+    unfold dscale. replace (f - g) with ((f - e') + (k + (e - g))) by (unfold k; lia).
+    rewrite !Z.pow_add_r by lia. ring. }
+  (* a competitor with a smaller exponent lies at or below q * 2^e' (normal range) *)
+  assert (LO : forall n f g, 0 <= n <= 2 ^ p -> f_elsb c <= f -> f < e' -> g <= e -> g <= f ->
+               dscale n f g <= q * 2 ^ k * 2 ^ (e - g)).
+  { intros n f g N F F' G1 G3.
+    assert (NORM : 2 ^ (p - 1) <= q).
+    { pose proof (rsig_normal c m e M ltac:(fold e'; lia)) as SN. fold m' p in SN.
+      (* q' >= 2^(p-1); if q' = q + 1 then q >= 2^(p-1) as well unless q + 1 = 2^(p-1): excluded by log2 *)
+      pose proof (log2_ge_pow m M) as LG.
+      assert (EQ : e' = Z.log2 m + e - (p - 1)) by (clear - F F'; subst e' p; unfold rexp in *; lia).
+      assert (2 ^ Z.log2 m = 2 ^ (p - 1) * 2 ^ k).
+      { rewrite <- Z.pow_add_r by lia. f_equal. unfold k. lia. }
+      nia. }
+    unfold dscale.
+    assert (0 < 2 ^ (f - g)) by (apply pow2_pos; lia).
+    assert (0 < 2 ^ (e - g)) by (apply pow2_pos; lia).
+    assert (S1 : 2 ^ (e' - 1 - g) = 2 ^ (e' - 1 - f) * 2 ^ (f - g)) by (rewrite <- Z.pow_add_r by lia; f_equal; lia).
+    assert (0 < 2 ^ (e' - 1 - f)) by (apply pow2_pos; lia).
+    assert (S2 : 2 * 2 ^ (e' - 1 - g) = 2 ^ k * 2 ^ (e - g)).
+    { rewrite <- Z.pow_add_r by lia. rewrite <- Z.pow_succ_r by lia. f_equal. unfold k. lia. }
+    pose proof (pow2_split p P) as PS.
+    (* n 2^(f-g) <= 2^p 2^(f-g) <= 2^p 2^(e'-1-g) = 2^(p-1) 2^k U <= q 2^k U *)
+    assert (n * 2 ^ (f - g) <= 2 ^ p * 2 ^ (e' - 1 - g)) by nia.
+    assert (2 ^ p * 2 ^ (e' - 1 - g) = 2 ^ (p - 1) * (2 ^ k * 2 ^ (e - g))) by (rewrite PS, <- S2; ring).
+    assert (0 < 2 ^ k * 2 ^ (e - g)) by nia.
+    nia. }
+  split.
+  - intros n f g N F G1 G2 G3. destruct (SC g G1) as (U0 & XE & YE). unfold ddist. rewrite XE, YE.
+    set (U := 2 ^ (e - g)) in *. rewrite A, RS.
+    assert (HQ : (q' = q /\ r <= 2 ^ (k - 1)) \/ (q' = q + 1 /\ 2 ^ (k - 1) <= r)).
+    { destruct QQ as [Q|Q]; [left|right]; split; auto. }
+    destruct (Z.le_gt_cases e' f) as [C|C].
+    + destruct (HI n f g ltac:(lia) C G1) as (N0 & N1 & WE). rewrite WE. fold U.
+      apply (od_near_mult q r (2 ^ k) (2 ^ (k - 1)) U q' U0 R E3 HQ).
+    + pose proof (LO n f g N F C G1 G3) as WL. fold U in WL.
+      apply (od_near_low q r (2 ^ k) (2 ^ (k - 1)) U q' U0 R E3 HQ _ WL).
+  - intros n f g N F G1 G2 G3 D NE. destruct (SC g G1) as (U0 & XE & YE). unfold ddist in D. rewrite XE, YE in D.
+    rewrite YE in NE. set (U := 2 ^ (e - g)) in *. rewrite A, RS in D. rewrite RS in NE.
+    assert (HQ : (q' = q /\ r <= 2 ^ (k - 1)) \/ (q' = q + 1 /\ 2 ^ (k - 1) <= r)).
+    { destruct QQ as [Q|Q]; [left|right]; split; auto. }
+    rewrite RS. apply EV.
+    destruct (Z.le_gt_cases e' f) as [C|C].
+    + destruct (HI n f g ltac:(lia) C G1) as (N0 & N1 & WE). rewrite WE in D, NE. fold U in D, NE.
+      apply (od_tie_mult q r (2 ^ k) (2 ^ (k - 1)) U q' U0 R E3 HQ N0 D NE).
+    + pose proof (LO n f g N F C G1 G3) as WL. fold U in WL.
+      apply (od_tie_low q r (2 ^ k) (2 ^ (k - 1)) U q' U0 R E3 HQ _ WL D NE).
+Qed.
